@@ -191,6 +191,8 @@ impl fmt::Display for ObjUpvalueState {
 pub struct ObjUpvalue {
     data: ObjUpvalueState,
     pub(crate) next: Option<Gc<RefCell<ObjUpvalue>>>,
+    // The fiber whose stack an open upvalue points into; keeps that stack alive.
+    pub(crate) fiber: Option<Gc<RefCell<ObjFiber>>>,
 }
 
 impl ObjUpvalue {
@@ -198,6 +200,7 @@ impl ObjUpvalue {
         ObjUpvalue {
             data: ObjUpvalueState::Open(address),
             next: None,
+            fiber: None,
         }
     }
 
@@ -245,6 +248,7 @@ impl ObjUpvalue {
     pub fn close(&mut self) {
         let value = self.get();
         self.data = ObjUpvalueState::Closed(value);
+        self.fiber = None;
     }
 }
 
@@ -257,6 +261,9 @@ impl GcManaged for ObjUpvalue {
         if let Some(u) = self.next.as_ref() {
             u.mark();
         }
+        if let Some(f) = self.fiber.as_ref() {
+            f.mark();
+        }
     }
 
     fn blacken(&self) {
@@ -266,6 +273,9 @@ impl GcManaged for ObjUpvalue {
         }
         if let Some(u) = self.next.as_ref() {
             u.blacken();
+        }
+        if let Some(f) = self.fiber.as_ref() {
+            f.blacken();
         }
     }
 
